@@ -10,7 +10,7 @@ TEXT = {
  'C02': dict(engine='libfuzzer+pbt', design_ref='DESIGN.md 5/C02',
    technique='coverage-guided fuzzing (libFuzzer, ASan + UBSan) of structure-aware targets with in-target oracles, plus generated depth / size ladders run in isolated child processes',
    level_text='per quick run ~10^5 coverage-guided executions per target (4 loaders x 30 target types x policies x memory / 3 stream kinds, text converters in 4 character widths, UTF codecs, encoded stream reader) starting from valid seed documents of every target type: any crash, sanitizer report, non-std exception, single allocation above 512 MiB, or input that does not finish within 25 s is a violation once it reproduces 3/3 from the saved input (which is minimised and becomes the replay file); the ladder feeds nesting depths up to 10^6 and declared counts up to 2^32-1 that a length-capped fuzzer cannot reach.',
-   level_note=_NOTE),
+   level_note=_NOTE + ' One recorded finding (KF-61, third-party RapidJSON 1.1.0: JSON number literals beyond the double range) is excluded from the JSON target by construction, counted, and witnessed from two saved inputs on every run.'),
 
  'C03': dict(engine='pbt (stateful / model-based)', design_ref='DESIGN.md 5/C03',
    technique='model-based property testing: generated request scripts executed against the real object scope and compared with the document as a map',
